@@ -69,7 +69,16 @@ pub fn slot_map(g: &ModuleGraph) -> HashMap<ModuleSpecifier, SlotRef<'_>> {
 pub fn selected_deps<'a>(ctx: &Ctx, o: &WOpts, key: &ModuleSpecifier, m: &'a Module) -> (&'a IndexMap<String, Dependency>, bool) {
   let check_types = o.kind.include_types() && oracle_checkable(m.media_type(), check_js_for(ctx, o, key));
   if check_types && o.prefer_fast_check {
-    (m.dependencies_prefer_fast_check(), check_types)
+    // stated independently of Module::dependencies_prefer_fast_check: a JS module that has a fast
+    // check module offers that module's dependencies, every other module its own
+    let deps = match m {
+      Module::Js(js) => match js.fast_check_module() {
+        Some(fc) => &fc.dependencies,
+        None => &js.dependencies,
+      },
+      _ => m.dependencies(),
+    };
+    (deps, check_types)
   } else {
     (m.dependencies(), check_types)
   }
